@@ -195,7 +195,7 @@ func VerifC04Race() {
 	ran2 := false
 	var res2 Result
 	var wq <-chan struct{}
-	vPreempt(func() {
+	g2 := func() {
 		ran2 = true
 		switch k2 {
 		case 0:
@@ -208,8 +208,21 @@ func VerifC04Race() {
 		if res2 > Canceled {
 			wq = m.WhenQueue(res2)
 		}
-	})
-	_, _, res1 := s.mutate()
+	}
+	// what the first goroutine does: 0 a mutation, 1 an Eval during whose function the second call happens,
+	// 2 an Eval with the second call at a symbolic point of Eval / PrependMut / processQueue
+	var res1 Result
+	switch vParam("g1", 0) {
+	case 0:
+		vPreempt(g2)
+		_, _, res1 = s.mutate()
+	case 1:
+		m.Eval("verif", func() { vJoin(g2) }, nil)
+	default:
+		vPreempt(g2)
+		m.Eval("verif", func() {}, nil)
+	}
+	vPreempt(nil)
 	vAssume(ran2)
 	vReach("race")
 	vLog("res1", uint64(res1))
